@@ -1,23 +1,79 @@
 CFG = {
     "modules": ["Parsley.Props.C10"],
     "theorems": [
+        # structural theorems over the REGENERATED shipped specification (decide +kernel)
         "Parsley.C10.shipped_catalog_keys", "Parsley.C10.shipped_root_keys",
         "Parsley.C10.shipped_kid_requires_indirect", "Parsley.C10.shipped_kid_alternatives",
         "Parsley.C10.shipped_node_recursive", "Parsley.C10.shipped_parent_requires_indirect",
         "Parsley.C10.shipped_name_choices", "Parsley.C10.shipped_rectangles", "Parsley.C10.shipped_page_scalars",
         "Parsley.C10.shipped_page_labels_reads_nums", "Parsley.C10.shipped_names_dictionary",
         "Parsley.C10.shipped_catalog_scalars", "Parsley.C10.shipped_covers_rule_tables",
+        # rules = model of the shipped predicates, all objects
         "Parsley.C10.tree_rule_eq_model", "Parsley.C10.number_tree_rule_eq_shipped", "Parsley.C10.name_tree_rule_eq_shipped",
-        "Parsley.C10.conforms_of_invariant",
+        # all documents
+        "Parsley.C10.conforms_of_invariant", "Parsley.C10.S_closed", "Parsley.C10.sub_agree",
+        "Parsley.C10.rendered_conforms_partial",
+        # witnesses of the remaining engine findings
         "Parsley.C10.direct_parent_accepted_witness", "Parsley.C10.deep_violation_memo_leak_witness",
     ],
-    "partial": {},
+    "partial": {
+        "Parsley.C10.rendered_conforms_partial":
+            "PROVED for every well-formed document WITHOUT optional entries: arbitrary shape, fan-out and depth of the page tree, any "
+            "mix of inner nodes, pages and templates, arbitrary pairwise distinct object numbers and /Count values: the rendered "
+            "catalog conforms (declarative `Conforms`, every unfolding depth) to the regenerated shipped specification. NOT proved: "
+            "(a) the same with optional entries of the menu (rectangles, dates, names, trees ...): covered by the structural theorems "
+            "shipped_* (the entry of every menu key has exactly the expected check), by tree_rule_eq_model for the two tree "
+            "predicates, and by the correspondence run; (b) the negative half `not Conforms (mutate m d)` for every valid single-rule "
+            "mutation: the judge evaluates the declarative reading of the shipped specification on every mutated case "
+            "(class spec-gap-* when it accepts), and shipped_* pin the constraint each mutation class violates; (c) acceptance by the "
+            "MACHINE (it differs from the declarative reading: memo leak, any-entry-skips-indirect -- known findings with witnesses); "
+            "(d) date strings: the recogniser of the rules (ASCII grammar) and the model of DateStringPredicate (UTF-8 decoding + the "
+            "regex as a deterministic descent) are compared by the correspondence run only.",
+    },
     "gen": ["CatalogSpec"],
-    "n": {"quick": 400, "thorough": 8000},
+    "n": {"quick": 400, "thorough": 6000},
     "exhaustive": {"quick": True, "thorough": True},
     "shrink": False,
-    "rule": "tbd",
-    "trusted_base": COMMON_TB + [],
-    "assumptions": [],
+    "rule": "corpus (23 hand-built catalogs: every DESIGN section-4 input #21-#24, the crate's own test shapes, dates with Unicode "
+            "digits / invalid UTF-8 / trailing apostrophe, reference chains, a self reference, a cyclic page tree, a directly given "
+            "root); EXHAUSTIVE both tiers: 5 fixed documents (empty tree, one page, all optional entries of the menu on catalog/page/"
+            "template, a 3-level tree, empty inner nodes) x EVERY valid single-rule mutation at EVERY position (drop each required key; "
+            "add the forbidden /Parent with 4 values; each name-valued key x 11 other names; each non-structural key x 75 replacement "
+            "values of the wrong type incl. every ill-formed name/number-tree node; every kid embedded directly; /Parent as 6 direct "
+            "objects), ~12000 cases; random: n conforming documents (depth <= 2 quick / 3 thorough, fan-out <= 3 / 4, random optional "
+            "entries: rectangles, dates of every length, tab/page-mode/page-layout names, number and name trees of all four shapes, "
+            "name dictionary, indirect dictionary/stream, strings, booleans) + 2n documents with one random valid mutation at a random "
+            "position; every case is re-derived from (seed, stream, index) by the judge and must equal its rendering; non-trivial = "
+            "mutated, or conforming with a kid and at least one optional entry",
+    "trusted_base": COMMON_TB + [
+        "extraction harness/src/bin/c10.rs: serialisation of the real check graph (type constructors, entries, sizes, alternatives, "
+        "indirect flags, ChoicePred values, predicate objects numbered by address) into Gen/CatalogSpec.lean; the predicate's Rust "
+        "type NAME selects the hand-written model (NameTreePredicate, DateStringPredicate: Model/TypeCheck.lean treePredOK, "
+        "Model/PdfDate.lean) and the key NumberTreePredicate reads its leaf array from is PROBED on two objects",
+        "modelled, not verified: core::str::from_utf8 (strict UTF-8 decoder) and the regex crate on the one date pattern "
+        "(deterministic descent over fixed-width groups) -- exercised by the correspondence run on 20 date strings per document kind",
+        "the C08 machine model and its trusted base (BTreeSet/VecDeque/Rc semantics; predicate identity = `Pred.tagged` number)",
+        "the rules Spec/CatalogRules.lean (documents, render, Mutation.valid) are the definition of `follows the shipped specification`",
+        "verif hooks C08-00 and C10-00 (Predicate::verif_name/verif_choices, TypeCheckContext::verif_entries)",
+    ],
+    "assumptions": [
+        "single-rule mutations insert DIRECT values (no references inside the replacement value except in tree nodes, where the "
+        "rules ask for references); giving the /Type of a kid the name of another kid type is a change of kind, not a violation",
+        "documents carry pairwise distinct object numbers (Doc.ok)"],
 }
-LEVEL = {"design_ref": "DESIGN.md 3.C10", "technique": "tbd", "text": "tbd"}
+LEVEL = {
+    "design_ref": "DESIGN.md 3.C10",
+    "technique": "Lean 4 theorems over the REGENERATED shipped specification (data translated from the real catalog_type on every run) "
+                 "+ the C08 machine model on that term + rule-based oracle (documents, render, single-rule mutations) + differential "
+                 "correspondence with the real check_type(catalog_type)",
+    "text": "Machine-checked on every run against the specification the code builds NOW: 13 structural theorems (required/forbidden keys "
+            "of catalog, root, node, page, template; kids = indirect-required disjunction node|page|template; /Parent any+indirect; the "
+            "listed page-mode/layout/tab names; rectangles = 4 numbers; date, number-tree (reads /Nums) and name-tree predicates; every "
+            "key of the rules' tables has the expected entry), equality of the rules' tree recogniser with the model of the two tree "
+            "predicates for ALL objects, a coinduction principle for conformance, and rendered_conforms_partial: every document without "
+            "optional entries, of any shape/fan-out/depth/numbering, conforms (partial: optional entries, the rejection half and the "
+            "machine are covered by the run). The run replays every valid single-rule mutation at every position of 5 documents plus "
+            "random trees through the real checker, the model and the rule oracle. Found and fixed: NumberTreePredicate read /Names "
+            "(C10-01), years in non-ASCII digits accepted (C10-02). Remaining engine findings surface as accepted violations "
+            "(/Parent given directly; a violation >= 2 levels deep next to an equal sibling): classified known, with witnesses.",
+}
